@@ -684,13 +684,24 @@ INTEGER_decode_uper(const asn_codec_ctx_t *opt_codec_ctx,
 	/* #12.2.3 */
 	if(ct && ct->lower_bound) {
 		/*
+		 * The octets are the non-negative offset from the lower bound.
 		 * TODO: replace by in-place arithmetics.
 		 */
-		long value = 0;
-		if(asn_INTEGER2long(st, &value))
+		unsigned long offset = 0;
+		if(asn_INTEGER2ulong(st, &offset))
 			ASN__DECODE_FAILED;
-		if(asn_imax2INTEGER(st, value + ct->lower_bound))
-			ASN__DECODE_FAILED;
+		if(specs && specs->field_unsigned) {
+			unsigned long lb = (unsigned long)ct->lower_bound;
+			if(offset > ULONG_MAX - lb
+			|| asn_ulong2INTEGER(st, offset + lb))
+				ASN__DECODE_FAILED;
+		} else {
+			long value = 0;
+			if(per_long_range_unrebase(offset, ct->lower_bound,
+				LONG_MAX, &value)
+			|| asn_long2INTEGER(st, value))
+				ASN__DECODE_FAILED;
+		}
 	}
 
 	return rval;
@@ -774,6 +785,28 @@ INTEGER_encode_uper(const asn_TYPE_descriptor_t *td,
         }
         if(uper_put_constrained_whole_number_u(po, v, ct->range_bits))
             ASN__ENCODE_FAILED;
+		ASN__ENCODED_OK(er);
+	}
+
+	/*
+	 * X.691 #10.7: a semi-constrained whole number is the offset from the
+	 * lower bound, a non-negative-binary-integer in the minimum number
+	 * of octets (#10.3.6), preceded by its length in octets.
+	 */
+	if(ct && (ct->flags & APC_SEMI_CONSTRAINED)) {
+		unsigned long offset =
+			(unsigned long)value - (unsigned long)ct->lower_bound;
+		uint8_t obuf[sizeof(offset)];
+		uint8_t *op = obuf + sizeof(obuf);
+		ssize_t olen;
+		do {
+			*--op = (uint8_t)(offset & 0xff);
+			offset >>= 8;
+		} while(offset);
+		olen = (obuf + sizeof(obuf)) - op;
+		if(uper_put_length(po, olen, 0) != olen
+		|| per_put_many_bits(po, op, 8 * olen))
+			ASN__ENCODE_FAILED;
 		ASN__ENCODED_OK(er);
 	}
 
